@@ -170,13 +170,13 @@ def check_log(ctx, name, events, wd, sig0, desc):
 def classify(got, prev, new, m, e, t, tiny):
     """Arithmetic relation that characterises a scale mismatch."""
     def close(a, b):
-        return abs(a - b) <= 8 * e * (t + 1) * max(abs(a), abs(b)) + 4 * tiny
+        return abs(a - b) <= 4 * e * max(abs(a), abs(b)) + 4 * tiny
 
     if prev is not None:
-        if close(got, 0.9 * prev + 0.1 * new) and abs(m - 0.9) > 1e-9:
-            return "uses_momentum_0.9"
         if close(got, new) and abs(prev - 1.0) <= 4 * e:
             return "scale_equal_to_1_restarts_average"
+        if close(got, 0.9 * prev + 0.1 * new) and abs(m - 0.9) > 1e-9:
+            return "uses_momentum_0.9"
         if close(got, new):
             return "average_restarted"
         if close(got, (1 - m) * prev + m * new):
